@@ -19,6 +19,7 @@ type Plan struct {
 	Bystander  int            `json:"bystander_ops,omitempty"`   // C11: an extra client works on an LRU cache of its own meanwhile (instances must not share state)
 	Young      bool           `json:"young_reference,omitempty"` // the references are cross-checked against a brand-new oracle process that sees the calls in reverse order
 	FreshAt    int            `json:"fresh_at,omitempty"`        // 1-based index of the call of client 0 whose reference is recomputed in a fresh OS process of its own (0: none)
+	SharedArgs bool           `json:"shared_tables,omitempty"`   // rule maps and function tables are package-level objects shared by all calls of all clients (built before the run, never edited by the harness): the library may read them concurrently and must never write to them
 	ExecPanics bool           `json:"exec_panics,omitempty"`     // calls whose solo result is a panic are executed too (and must panic the same way); user-supplied functions that panic are part of the vocabulary
 	Repeat     int            `json:"repeat,omitempty"`          // > 1: the calls of client 0 from RepeatFrom on are executed that many times in all (long histories: counters that wrap, tables that fill)
 	RepeatFrom int            `json:"repeat_from,omitempty"`
@@ -164,6 +165,9 @@ func genStructCall(r *detsim.Rand, types []int, overrides bool) Call {
 		if overrides {
 			c.Fn = r.Intn(NFnSets)
 		}
+	}
+	if overrides && typeName(t) == "Order" && c.Entry != EMyFn && r.Chance(1, 2) {
+		c.Rule = 9 + r.Intn(2) // the overrides that name one of the type's time.Time fields
 	}
 	if r.Chance(1, 6) {
 		c.Shape = 1 + r.Intn(6)
@@ -493,7 +497,7 @@ func GenC12(r *detsim.Rand, tier string) *Plan {
 		addRegistrations(r, p)
 	}
 	freshSample(r, p, tier)
-	if r.Chance(1, 14) {
+	if r.Chance(1, 20) {
 		makeCard(r, p, 1, false) // hundreds to thousands of distinct rule texts / tag names / keys / types, the early ones met again later
 	}
 	return p
@@ -582,7 +586,7 @@ func GenC11(r *detsim.Rand, tier string) *Plan {
 	freshSample(r, p, tier)
 	if !big && r.Chance(1, 12) {
 		coldWide(r, p)
-	} else if !big && r.Chance(1, 14) {
+	} else if !big && r.Chance(1, 24) {
 		makeCard(r, p, 2+r.Intn(3), false) // several clients walk through the same few hundred distinct rule texts / tag names / keys
 	}
 	return p
